@@ -436,7 +436,7 @@ func runC02c(rc *RunCtx) {
 	f := gen.NewFile(randBytes(rc.Rng, int64(1+rc.Intn(5000))), 1024)
 	chain.SetBech32()
 	owner := sdk.AccAddress(chain.DeriveKey(rc.Seed, 0).PubKey().Address()).String()
-	cfg := chain.Config{Seed: rc.Seed, NAcc: 3, Storage: sp}
+	cfg := chain.Config{Seed: rc.Seed, NAcc: 5, Storage: sp}
 	var S, E int64
 	if kind == "payonce-genesis" {
 		S = 1 // the first block: the run starts at the file's first height
@@ -445,7 +445,7 @@ func runC02c(rc *RunCtx) {
 			var sg storagetypes.GenesisState
 			cdc.MustUnmarshalJSON(gs[storagetypes.ModuleName], &sg)
 			sg.FileList = append(sg.FileList, storagetypes.UnifiedFile{Merkle: f.Root(), Owner: owner, Start: S, Expires: E, FileSize: f.Size(),
-				ProofInterval: W, ProofType: 0, Proofs: []string{}, MaxProofs: 3, Note: "{}"})
+				ProofInterval: W, ProofType: 0, Proofs: []string{}, MaxProofs: 5, Note: "{}"})
 			gs[storagetypes.ModuleName] = cdc.MustMarshalJSON(&sg)
 		}
 	}
@@ -468,18 +468,32 @@ func runC02c(rc *RunCtx) {
 		rc.Abort("buy: " + r.Log)
 		return
 	}
-	for p := 1; p <= 2; p++ {
+	// company: the file's owner may be a provider that proves its own file (in step with prover 1); a deserter joins once
+	// and never proves again (the reward blocks have to drop and burn it, and nobody else); a second file, posted out of
+	// phase with the first and held by one further provider that proves in every block, shares the reward blocks
+	ownerProves, deserter, second := rc.Chance(0.4), rc.Chance(0.5), rc.Chance(0.6)
+	for p := 0; p <= 4; p++ {
+		if p == 0 && !ownerProves {
+			continue
+		}
 		if r := s.InitProvider(p, fmt.Sprintf("https://a.p%d.example", p)); !r.OK() {
 			rc.Abort("provider: " + r.Log)
 			return
 		}
 	}
+	honest := []int{1, 2}
+	if ownerProves {
+		honest = append(honest, 0)
+	}
 	// prover 1 joins in the file's first window (a file nobody stores after its first window is dropped by design)
-	join := map[int]int64{1: 0, 2: int64(rc.Intn(3))}
+	join := map[int]int64{0: 0, 1: 0, 2: int64(rc.Intn(3))}
+	gDelay := int64(1 + rc.Intn(int(W)+2))
+	var wg *WFile
+	deserted := false
 	var wf *WFile
 	switch kind {
 	case "payonce-genesis":
-		wf = &WFile{F: f, Owner: 0, OwnerAddr: owner, Start: S, MaxProofs: 3, Expires: E, Size: f.Size(), Window: W}
+		wf = &WFile{F: f, Owner: 0, OwnerAddr: owner, Start: S, MaxProofs: 5, Expires: E, Size: f.Size(), Window: W}
 		s.Files = append(s.Files, wf)
 	default:
 		for i := rc.Intn(int(C)); i > 0; i-- {
@@ -493,7 +507,7 @@ func runC02c(rc *RunCtx) {
 			exp = c.Height + 14_400 + int64(rc.Intn(100_000))
 		}
 		var r chain.TxResult
-		if wf, r = s.PostFile(0, f, 3, exp, -1); !r.OK() {
+		if wf, r = s.PostFile(0, f, 5, exp, -1); !r.OK() {
 			rc.Abort("post: " + r.Log)
 			return
 		}
@@ -505,7 +519,7 @@ func runC02c(rc *RunCtx) {
 				return
 			}
 			s.Files = nil
-			wf2, r2 := s.PostFile(0, f, 3, 0, -1)
+			wf2, r2 := s.PostFile(0, f, 5, 0, -1)
 			if !r2.OK() || wf2.Start != wf.Start {
 				rc.Abort(fmt.Sprintf("re-post: %s", r2.Log))
 				return
@@ -518,6 +532,9 @@ func runC02c(rc *RunCtx) {
 	const L = 6
 	offs := map[[2]int64]int64{}
 	off := func(p int, win int64) int64 {
+		if p == 0 {
+			p = 1 // the owner proves in the same blocks as prover 1
+		}
 		k := [2]int64{int64(p), win}
 		if _, ok := offs[k]; !ok {
 			offs[k] = int64(rc.Intn(int(W)))
@@ -531,7 +548,27 @@ func runC02c(rc *RunCtx) {
 		rel := c.Height - S
 		win := rel / W
 		if rel >= 0 {
-			for p := 1; p <= 2; p++ {
+			if deserter && !deserted {
+				deserted = true
+				if pr := s.ProveHonest(3, wf); !pr.Success {
+					rc.Logf("h=%d deserter could not join: %s", c.Height, pr.ErrMsg)
+				}
+			}
+			if second && wg == nil && rel >= gDelay {
+				g := gen.NewFile(randBytes(rc.Rng, int64(1+rc.Intn(5000))), 1024)
+				var rg chain.TxResult
+				if wg, rg = s.PostFile(0, g, 1, 0, -1); !rg.OK() {
+					rc.Abort("post of the second file: " + rg.Log)
+					return
+				}
+			}
+			if wg != nil {
+				if pr := s.ProveHonest(4, wg); !pr.Success {
+					rc.Fail("C02/honest-proof-rejected", "kind=%s: proof of the second file's prover at h=%d rejected: %s", kind, c.Height, pr.ErrMsg)
+					return
+				}
+			}
+			for _, p := range honest {
 				if win >= join[p] && win <= L && rel%W == off(p, win) {
 					pr := s.ProveHonest(p, wf)
 					rc.Eval(1)
@@ -566,8 +603,17 @@ func runC02c(rc *RunCtx) {
 		if h >= S+(L+2)*W {
 			continue // window L+1 is skipped by design; from here on a removal is legitimate
 		}
+		if wg != nil && ro.Pre.File(wg.Key()) != nil {
+			a4 := c.Accs[4].Bech
+			if b0, b1 := burned(ro.Pre.Providers[a4]), burned(ro.Post.Providers[a4]); b1 != b0 {
+				rc.Fail("C02/honest-prover-burned", "kind=%s W=%d C=%d: the second file's prover, which proves in every block, burn counter %d -> %d at reward block h=%d", kind, W, C, b0, b1, h)
+			}
+			if g := ro.Post.File(wg.Key()); g == nil || len(g.Proofs) != 1 || proverOfKey(g.Proofs[0]) != a4 {
+				rc.Fail("C02/honest-prover-removed", "kind=%s W=%d C=%d: the second file's prover, which proves in every block, is no longer its only listed prover after the reward block at h=%d", kind, W, C, h)
+			}
+		}
 		pf := ro.Post.File(wf.Key())
-		for p := 1; p <= 2; p++ {
+		for _, p := range honest {
 			if !joined[p] {
 				continue
 			}
@@ -588,6 +634,6 @@ func runC02c(rc *RunCtx) {
 			}
 		}
 	}
-	rc.NonTrivial(fmt.Sprintf("c/%s/W%d/C%d/j%d%d/past-expiry=%v", kind, W, C, join[1], join[2], passedExpiry))
+	rc.NonTrivial(fmt.Sprintf("c/%s/W%d/C%d/j%d%d/past-expiry=%v/owner-proves=%v/deserter=%v/second-file=%v", kind, W, C, join[1], join[2], passedExpiry, ownerProves, deserter, wg != nil))
 	rc.Sample(map[string]interface{}{"part": "c", "kind": kind, "W": W, "C": C, "start": S, "expires": wf.Expires, "joins": fmt.Sprint(join)})
 }
